@@ -776,6 +776,54 @@ func c04BatchRequest(p *Prog, r *Report, R4 string) {
 			tagFrom = a.Args[1].String()
 		}
 	}
+	if tagFrom == "" {
+		// the same two bytes combined by hand: uint16(data[i])<<8 | uint16(data[i+1])
+		rg := p.rangeFor(fn)
+		byteOf := func(v ssa.Value) (ssa.Value, bool) {
+			if cv, ok := v.(*ssa.Convert); ok {
+				v = cv.X
+			}
+			ld, ok := v.(*ssa.UnOp)
+			if !ok || ld.Op != token.MUL {
+				return nil, false
+			}
+			ia, ok := ld.X.(*ssa.IndexAddr)
+			if !ok || s.Of(ia.X).String() != "param:1" {
+				return nil, false
+			}
+			return ia.Index, true
+		}
+		for _, b := range fn.Blocks {
+			for _, in := range b.Instrs {
+				bo, ok := in.(*ssa.BinOp)
+				if !ok || (bo.Op != token.OR && bo.Op != token.ADD) {
+					continue
+				}
+				for _, pr := range [][2]ssa.Value{{bo.X, bo.Y}, {bo.Y, bo.X}} {
+					sh, ok := pr[0].(*ssa.BinOp)
+					if !ok || sh.Op != token.SHL {
+						continue
+					}
+					if c, ok := sh.Y.(*ssa.Const); !ok || c.Value == nil || c.Int64() != 8 {
+						continue
+					}
+					hiIdx, ok1 := byteOf(sh.X)
+					loIdx, ok2 := byteOf(pr[1])
+					if !ok1 || !ok2 {
+						continue
+					}
+					h, okh := rg.lin(hiIdx)
+					l, okl := rg.lin(loIdx)
+					if okh && okl {
+						d := l.minus(h).addConst(-1)
+						if len(d.c) == 0 && d.k.Sign() == 0 {
+							tagFrom = s.Of(hiIdx).String()
+						}
+					}
+				}
+			}
+		}
+	}
 	okPos = okPos && tagFrom != "" && elemBytes.Args[1].String() == tagFrom
 	r.Check(okPos, R4, name+": tag and element are read at the same offset of the input", p.InstrPos(u), "data[i:i+2] and data[i:...]", "the tag is read at offset "+tagFrom+" but the element is decoded from "+clip(elemBytes.String(), 200))
 	// success of the element decode dominates the append and the advance; advance = len(elem.Marshal())
